@@ -76,20 +76,22 @@ theorem nodup_bound : ∀ (n : Nat) (l : List Nat), l.Nodup → (∀ x ∈ l, x 
       omega
   | succ n ih =>
     intro l hnd hle
-    have hsplit := List.length_eq_length_filter_add (l := l) (fun x => decide (x ≤ n))
+    have hsplit : l.length = (l.filter (fun x => decide (x ≤ n))).length + (l.filter (fun x => decide (n < x))).length := by
+      have := List.length_eq_countP_add_countP (fun x => decide (x ≤ n)) (l := l)
+      simpa [List.countP_eq_length_filter] using this
     have h1 : (l.filter (fun x => decide (x ≤ n))).length ≤ n + 1 := by
       apply ih
       · exact hnd.filter _
       · intro x hx; simpa using (List.mem_filter.mp hx).2
-    have h2 : (l.filter (fun x => !decide (x ≤ n))).length ≤ 1 := by
-      have hsub : ∀ x ∈ l.filter (fun x => !decide (x ≤ n)), x = n + 1 := by
+    have h2 : (l.filter (fun x => decide (n < x))).length ≤ 1 := by
+      have hsub : ∀ x ∈ l.filter (fun x => decide (n < x)), x = n + 1 := by
         intro x hx
         have hm := List.mem_filter.mp hx
         have := hle x hm.1
-        have : ¬ x ≤ n := by simpa using hm.2
+        have : n < x := by simpa using hm.2
         omega
-      have hnd' : (l.filter (fun x => !decide (x ≤ n))).Nodup := hnd.filter _
-      match hq : l.filter (fun x => !decide (x ≤ n)), hnd', hsub with
+      have hnd' : (l.filter (fun x => decide (n < x))).Nodup := hnd.filter _
+      match hq : l.filter (fun x => decide (n < x)), hnd', hsub with
       | [], _, _ => simp
       | [a], _, _ => simp
       | a :: b :: r, hnd', hsub =>
